@@ -36,10 +36,9 @@ impl PartialEq for J {
             // numeric interoperability is the engine's job (eq_json), not something it may delegate to PartialEq
             (J::Str(a), J::Str(b)) => a == b,
             (J::Arr(a), J::Arr(b)) => a == b,
-            (J::Obj(a), J::Obj(b)) => {
-                a.len() == b.len()
-                    && a.iter().all(|(k, v)| b.iter().any(|(k2, v2)| k == k2 && v == v2))
-            }
+            // deliberately ORDER-SENSITIVE (a derived PartialEq on the member vector would be, too): whether two objects
+            // are the same JSON value is decided by the engine through the trait's accessors, not by this operator
+            (J::Obj(a), J::Obj(b)) => a == b,
             _ => false,
         }
     }
@@ -153,7 +152,7 @@ impl jsonpath_rust::JsonPath for J {}
 /// `Sh`: a third faithful `Queryable` whose arrays and objects are reference-counted and SHARED between equal
 /// sub-documents (hash-consing). Two different locations may therefore have the same address; an engine that relies on
 /// node identity (addresses) instead of the trait's view is noticed (C15).
-#[derive(Clone, Debug)]
+#[derive(Clone)]
 pub enum Sh {
     Null,
     Bool(bool),
@@ -162,6 +161,21 @@ pub enum Sh {
     Str(String),
     Arr(std::sync::Arc<Vec<Sh>>),
     Obj(std::sync::Arc<Vec<(String, Sh)>>),
+}
+/// `Debug` is deliberately LOSSY (type tag and size only): the trait requires `Debug` for diagnostics, and an engine
+/// that derives behaviour from the debug text of a value must be noticed.
+impl std::fmt::Debug for Sh {
+    fn fmt(&self, f: &mut std::fmt::Formatter<'_>) -> std::fmt::Result {
+        match self {
+            Sh::Null => write!(f, "Null"),
+            Sh::Bool(_) => write!(f, "Bool"),
+            Sh::Int(_) => write!(f, "Int"),
+            Sh::Float(_) => write!(f, "Float"),
+            Sh::Str(s) => write!(f, "Str<{}>", s.len()),
+            Sh::Arr(a) => write!(f, "Arr<{}>", a.len()),
+            Sh::Obj(o) => write!(f, "Obj<{}>", o.len()),
+        }
+    }
 }
 impl Default for Sh {
     fn default() -> Self {
